@@ -832,6 +832,10 @@ class Ref(Field):
         self.prototype = prototype
         self.embed = embed
 
+        # an embedding reference only lends its fields to the packet: nothing
+        # is stored under its own name when parsing, it holds no value
+        self.holds_no_value = bool(embed)
+
     def _lets_find_a_nice_default(self, prototype, default):
         if callable(prototype) or isinstance(
             prototype, (UnaryExpr, BinaryExpr, NaryExpr)
